@@ -123,6 +123,10 @@ def gen_plan(seed: int, run: int, tier: str) -> dict:
     if cfg["late_sweepers"] >= 2 and any(f["region"] == "objective" for f in faults) and rng.random() < 0.5:
         lreg = frng.choice(["callback", "callback", "callback", "sweep"])
         faults.append({"victim": "late*", "region": lreg, "nth": frng.choice([0, 0, 0, 1, 2, 3, 4, 6] if lreg == "callback" else [0, 1, 2, 3, 5, 8, 13])})
+    if cfg["late_sweepers"] >= 2 and not any(f["victim"] == "late*" for f in faults) and rng.random() < 0.3:
+        # one of the racing late sweepers meets a failing UPDATE (lock timeout, lost
+        # connection): its sweep ends with StorageInternalError; at-most-once must still hold
+        cfg["sweep_sql_fault"] = {"sweeper": "late%d" % rng.randrange(cfg["late_sweepers"]), "nth": rng.choice([0, 0, 1, 2])}
     return {"check": ID, "seed": seed, "run": run, "cfg": cfg, "workers": workers, "faults": faults, "sched": {"seed": rng.getrandbits(48)}}
 
 
@@ -152,6 +156,7 @@ def run_plan(plan: dict) -> dict:
 
 def _run(plan: dict, sim: sched.Sim, ch: sched.Chooser, dep: deploy.Deployment) -> dict:
     import optuna
+    from optuna.exceptions import StorageInternalError
     from optuna.storages import RetryFailedTrialCallback, _CachedStorage
     from optuna.storages import _heartbeat as hbmod
     from optuna.trial import TrialState
@@ -391,11 +396,30 @@ def _run(plan: dict, sim: sched.Sim, ch: sched.Chooser, dep: deploy.Deployment) 
                 st = make_storage(lproc)
                 study = optuna.load_study(study_name="hb", storage=st)
                 region[lname] = ["other"]
-                fail_stale_trials(study)
+                try:
+                    fail_stale_trials(study)
+                except StorageInternalError:
+                    if not (ssf and ssf.get("fired") and ssf["sweeper"] == lname):
+                        raise
+                    sim.count("sweep_ended_by_sql_error")
                 st.remove_session()
 
             return body
 
+        ssf = dict(cfg["sweep_sql_fault"]) if cfg.get("sweep_sql_fault") else None
+        if ssf:
+            nupd = [0]
+
+            def sql_fault(task: Any, skind: str, word: str) -> bool:
+                if task is None or task.name != ssf["sweeper"] or skind != "sql.exec" or word != "UPDATE" or ssf.get("fired"):
+                    return False
+                nupd[0] += 1
+                if nupd[0] - 1 == ssf["nth"]:
+                    ssf["fired"] = True
+                    return True
+                return False
+
+            dep.db.fault = sql_fault
         lts = []
         for i in range(int(cfg.get("late_sweepers", 1))):
             lp = sim.proc("PLATE%d" % i, skew=[0.0, 7200.0, -7200.0][i % 3])
